@@ -58,6 +58,15 @@ class VIter(V):
         self.src, self.view, self.is_iter = src, view, is_iter
 
 
+class VCopy(V):
+    """A full materialisation of a pith or of one of its views -- list(x), tuple(x), [*x], [*x.values()]: every item
+    has been read (a `scan` event of weight len(x) was recorded); items are addressed like the source's."""
+    __slots__ = ('src', 'view')
+
+    def __init__(self, src, view='self'):
+        self.src, self.view = src, view
+
+
 class VBoundMethod(V):
     __slots__ = ('recv', 'name')
 
@@ -441,6 +450,26 @@ class Evaluator:
         raise Unsupported('tuple display of symbolic values')
 
     # ---- subscripts
+    def materialise(self, a, pc, node):
+        """list(x) / tuple(x) / [*x] / [*x.values()]: linear in len(x) -- recorded, and the copy stays usable."""
+        U, c = self.U, self.c
+        t = a.t if isinstance(a, VObj) else a.src
+        view = 'self' if isinstance(a, VObj) else a.view
+        if view == 'items':
+            raise Unsupported('materialised items() view')
+        if isinstance(a, VObj):
+            self.side('notiterable', AND(pc, z3.Not(U.iterable_items(t))), node)
+        c.events.append(Event('scan', pc, t, U.len(t), self.where(node)))
+        c.events.append(Event('consume', AND(pc, U.one_shot(t)), t, None, self.where(node)))
+        return VCopy(t, view)
+
+    def e_List(self, node, pc):
+        if len(node.elts) == 1 and isinstance(node.elts[0], ast.Starred):
+            a = self.eval(node.elts[0].value, pc)
+            if isinstance(a, (VObj, VIter)):
+                return self.materialise(a, pc, node)
+        raise Unsupported(f'expression List: {self.where(node)}')
+
     def e_Subscript(self, node, pc):
         base = self.eval(node.value, pc)
         if isinstance(node.slice, ast.Slice):
@@ -458,6 +487,14 @@ class Evaluator:
 
     def getitem(self, base, key, pc, node):
         U, c = self.U, self.c
+        if isinstance(base, VCopy):
+            x = base.src
+            i = self.to_int(key, node)
+            n = U.len(x)
+            self.side('index', AND(pc, z3.Not(z3.And(i < n, i >= -n))), node)
+            idx = z3.If(i >= 0, i, i + n)
+            it = U.item_of(x, idx)
+            return VObj(U.val_of(x, it) if base.view == 'values' else it)
         if isinstance(base, VArgs):
             if isinstance(key, VConc) and isinstance(key.v, int):
                 k = key.v + base.start if key.v >= 0 else None
@@ -597,6 +634,8 @@ class Evaluator:
         if fn is type and len(args) == 1:
             raise Unsupported('type(x)')
         name = getattr(fn, '__name__', '')
+        if fn in (list, tuple) and len(args) == 1 and not kwargs and isinstance(args[0], (VObj, VIter)):
+            return self.materialise(args[0], pc, node)
         if fn in (all, any, sum, sorted, list, tuple, set, frozenset, dict, min, max, enumerate,
                   reversed, zip, map, filter):
             for a in args:
